@@ -459,7 +459,9 @@ def _mixed_paths(ms, gran, ng, flows):
 
 def _metric_class(m, ng, flows, vals):
     """class explaining a wrong metric m over the field values vals of one group"""
-    j = int(m[1:]) if m[0] != "c" else 0
+    if m[0] == "c":
+        return None
+    j = int(m[1:])
     cols = [[r[1 + ng + j] for r in b] for f in flows for b in f]
     k = m[0]
     if k == "u" and any(col and all(v[0] in ("i", "n") for v in col) for col in cols):
